@@ -12,6 +12,8 @@ const PROTOCOL_VERSION: u8 = 0x05;
 const RESERVED: u8 = 0x00;
 const MAX_AUTH_METHODS_NUM: usize = u8::MAX as usize;
 const MAX_DOMAIN_NAME_LENGTH: usize = u8::MAX as usize;
+const MAX_USERNAME_LENGTH: usize = u8::MAX as usize;
+const MAX_PASSWORD_LENGTH: usize = u8::MAX as usize;
 const ADDRESS_TYPE_IP_V4: u8 = 0x01;
 const ADDRESS_TYPE_DOMAIN_NAME: u8 = 0x03;
 const ADDRESS_TYPE_IP_V6: u8 = 0x04;
@@ -311,6 +313,13 @@ trait SocksWriter: AsyncWriteExt + Sized + Unpin {
     async fn write_authentication_message(&mut self, auth: &Authentication) -> Result<(), Error> {
         let buf = match auth {
             Authentication::UsernamePassword(username, password) => {
+                if username.len() > MAX_USERNAME_LENGTH {
+                    return Err(Error::Protocol("Too long username".to_string()));
+                }
+                if password.len() > MAX_PASSWORD_LENGTH {
+                    return Err(Error::Protocol("Too long password".to_string()));
+                }
+
                 let mut buf = MaxStackSmallVec::with_capacity(
                     std::mem::size_of_val(&USERNAME_PASSWORD_AUTHENTICATION_VER)
                         + std::mem::size_of::<u8>()
